@@ -47,27 +47,48 @@ MAIN = 'main'
 # abstract syntax <-> Python text, Gallina, JSON
 # --------------------------------------------------------------------------------------------
 
+PRIVATE = 100     # name codes from here on are rendered with a leading underscore (Model.Cache.is_private)
+
+
 class Namer(object):
-    """name code k <-> identifier 'n<k>'; the first component of a module path carries the run token"""
+    """name code k <-> identifier 'n<k>' ('_n<k>' for k >= 100); the first component of a module path
+    carries the run token ('_<token>n<k>' when private, so that the file name starts with an underscore)"""
 
     def __init__(self, token):
         self.token = token
 
     def ident(self, k):
-        return 'n%d' % k
+        return ('_n%d' if k >= PRIVATE else 'n%d') % k
+
+    def top(self, k):
+        return ('_' if k >= PRIVATE else '') + self.token + 'n%d' % k
+
+    def parts(self, m):
+        return [self.top(m[0])] + [self.ident(k) for k in m[1:]]
 
     def modstr(self, m):
-        return '.'.join([self.token + self.ident(m[0])] + [self.ident(k) for k in m[1:]])
+        return '.'.join(self.parts(m))
 
     def modfile(self, root, m, packages):
-        parts = [self.token + self.ident(m[0])] + [self.ident(k) for k in m[1:]]
+        parts = self.parts(m)
         if tuple(m) in packages:
             return os.path.join(root, *(parts + ['__init__.py']))
         return os.path.join(root, *parts) + '.py'
 
     def code(self, ident):
-        mo = re.match(r'^n(\d+)$', ident)
-        return int(mo.group(1)) if mo else None
+        mo = re.match(r'^(_?)n(\d+)$', ident)
+        if mo and (int(mo.group(2)) >= PRIVATE) == bool(mo.group(1)):
+            return int(mo.group(2))
+        return None
+
+    def top_code(self, name):
+        for k_private in (False, True):
+            pre = ('_' if k_private else '') + self.token
+            if name.startswith(pre):
+                mo = re.match(r'^n(\d+)$', name[len(pre):])
+                if mo and (int(mo.group(1)) >= PRIVATE) == k_private:
+                    return int(mo.group(1))
+        return None
 
 
 def render_binding(b, nm, here=None, rel_ok=False):
@@ -235,8 +256,8 @@ class Runner(object):
                     rel = os.path.relpath(os.path.join(dp, fn), root)[:-3].split(os.sep)
                     if rel[-1] == '__init__':
                         rel = rel[:-1]
-                    codes = [self.nm.code(c[len(token):] if i == 0 else c) for i, c in enumerate(rel)]
-                    if rel and rel[0].startswith(token) and None not in codes:
+                    codes = [self.nm.top_code(c) if i == 0 else self.nm.code(c) for i, c in enumerate(rel)]
+                    if rel and None not in codes:
                         self.files[os.path.join(dp, fn)] = tuple(codes)
         else:
             self.root = tempfile.mkdtemp(prefix='c09_', dir=base)
@@ -444,7 +465,7 @@ def cached_modules(server):
 # --------------------------------------------------------------------------------------------
 
 # fixed small universe for the exhaustive part: a -> b -> c, package p with submodule p.s
-A, B_, C, P, S, Z, Z2 = [1], [2], [3], [4], [4, 5], [6], [8]
+A, B_, C, P, S, Z, Z2, PT = [1], [2], [3], [4], [4, 5], [6], [108], [4, 13]
 NC, NB, NX = 10, 11, 12
 
 
@@ -453,7 +474,7 @@ def exhaustive_alphabet():
     a reference to a module z that does not exist yet) and a small alphabet of operations."""
     setup = [
         ['W', C, [['D', NC, [20]]]],
-        ['W', B_, [['S', Z2], ['F', NB, C, NC], ['F', NX, Z, NX], ['F', 7, P, 7]]],
+        ['W', B_, [['S', Z2], ['F', NB, C, NC], ['F', NX, Z, NX], ['S', P], ['F', 13, P, 13]]],
         ['W', A, [['S', B_]]],
         ['W', P, [['I', 5, S], ['D', 13, [22]]]],
         ['W', S, [['S', C], ['D', 14, [23]]]],
@@ -465,7 +486,8 @@ def exhaustive_alphabet():
         ['main', [['F', 5, P, 5]], ['attrs', 5, NC]],       # p.s.C. (submodule, then star)
         ['main', [['F', NB, A, NB]], ['loc', NB]],          # definition chain
         ['fromimport', P],
-        ['main', [['I', 2, B_]], ['attrs', 2, 7]],          # b.t. where b: from p import t and p.t does not exist yet
+        ['main', [['I', 2, B_]], ['attrs', 2, 13]],         # b.t. where b: from p import * / from p import t; t is a class of
+                                                            # p/__init__ (p is cached before p.t is probed), p/t.py is created later
     ]
     edits = [
         ['W', C, [['D', NC, [21]], ['D', 15, []]]],         # rewrite c: new attribute, new name
@@ -473,7 +495,7 @@ def exhaustive_alphabet():
         ['W', Z, [['D', NX, [24]]]],                        # create the missing module
         ['W', Z2, [['D', 17, [25]]]],                       # create the other missing module of the same package
         ['T', A],
-        ['W', [4, 7], [['D', 16, []]]],                     # new submodule p.t
+        ['W', PT, [['D', 16, []]]],                         # new submodule p.t, named like a class of p/__init__
     ]
     failing = [
         ['X', reqs[0]],                                     # a.B. is analysed, then the request fails
@@ -483,12 +505,13 @@ def exhaustive_alphabet():
 
 
 # ranks witnessing that every disk reachable in the exhaustive part is acyclic (C09_acyclic)
-EXH_RANKS = [[Z, 0], [Z2, 0], [[4, 7], 0], [[9], 0], [C, 1], [S, 2], [P, 3], [B_, 4], [A, 5]]
+EXH_RANKS = [[Z, 0], [Z2, 0], [PT, 0], [[9], 0], [C, 1], [S, 2], [P, 3], [B_, 4], [A, 5]]
 
 
 def gen_universe(rng):
     """3-6 modules in 1-2 packages (package = its __init__ module + submodules)"""
-    tops = [[k] for k in range(1, rng.randint(3, 5))]
+    priv = lambda k: k + PRIVATE if rng.random() < 0.3 else k     # some modules are named _x
+    tops = [[priv(k)] for k in range(1, rng.randint(3, 5))]
     pk = rng.randint(1, 2)
     packages = []
     mods = list(tops)
@@ -497,7 +520,7 @@ def gen_universe(rng):
         packages.append(p)
         mods.append(p)
         for s in range(rng.randint(1, 2)):
-            mods.append(p + [30 + s])
+            mods.append(p + [priv(30 + s)])
     mods = mods[:6] if len(mods) > 6 else mods
     packages = [p for p in packages if p in mods]
     rng.shuffle(mods)           # topological order of the import graph: mods[i] imports mods[j>i] only
@@ -513,17 +536,21 @@ def bound_names(c):
     return [b[1] for b in c if b[0] != 'S']
 
 
-def gen_binding(rng, later, cur):
+def gen_binding(rng, later, cur, own=None):
     r = rng.random()
     if r < 0.3 or not later:
-        return ['D', rng.choice(NAME_POOL), rng.sample(ATTR_POOL, rng.randint(0, 2))]
+        subs = [t[1] for t in later if own is not None and len(t) == 2 and t[:1] == list(own)]
+        if subs and rng.random() < 0.5:
+            # a package __init__ binding the name of one of its (possibly not yet existing) submodules
+            return ['D', rng.choice(subs), rng.sample(ATTR_POOL, rng.randint(0, 2))]
+        return ['D', rng.choice(NAME_POOL + [PRIVATE + 40]), rng.sample(ATTR_POOL, rng.randint(0, 2))]
     t = rng.choice(later)
     if r < 0.42:
         return ['I', rng.choice(NAME_POOL), t]
     if r < 0.8:
         if len(t) == 2 and t[:1] in later and rng.random() < 0.5:
             # from package import submodule
-            return ['F', t[1] if rng.random() < 0.7 else rng.choice(NAME_POOL), t[:1], t[1]]
+            return ['F', t[1] if rng.random() < 0.7 and t[1] < PRIVATE else rng.choice(NAME_POOL), t[:1], t[1]]
         known = bound_names(cur.get(tuple(t), []))
         x = rng.choice(known) if known and rng.random() < 0.8 else rng.choice(NAME_POOL)
         return ['F', x if rng.random() < 0.6 else rng.choice(NAME_POOL), t, x]
@@ -542,15 +569,15 @@ def gen_content(rng, mods, i, cur):
         if r < 0.35 and c[k][0] == 'D':
             c[k] = ['D', c[k][1], rng.sample(ATTR_POOL, rng.randint(0, 2))]
         elif r < 0.55:
-            c[k] = gen_binding(rng, later, cur)
+            c[k] = gen_binding(rng, later, cur, mods[i])
         elif r < 0.75:
-            c.insert(rng.randint(0, len(c)), gen_binding(rng, later, cur))
+            c.insert(rng.randint(0, len(c)), gen_binding(rng, later, cur, mods[i]))
         elif r < 0.9 and len(c) > 1:
             del c[k]
         else:
             rng.shuffle(c)
         return c[:5]
-    return [gen_binding(rng, later, cur) for _ in range(rng.randint(1, 4))]
+    return [gen_binding(rng, later, cur, mods[i]) for _ in range(rng.randint(1, 4))]
 
 
 def visible_names(cur, mods):
@@ -884,6 +911,16 @@ def run_all(ctx, histories, token):
         return pool.map(_worker, jobs, chunksize=16)
 
 
+def outside_domain(h):
+    """what, if anything, takes a history outside the quantifier domain stated by the property"""
+    why = []
+    if any(o[0] == 'X' for o in h['ops']):
+        why.append('a request aborted inside check_changes by its caller (op X)')
+    if h.get('spelling') == 'syspath':
+        why.append('modules found on sys.path outside the project sources')
+    return ', '.join(why)
+
+
 def first_difference(la, fa):
     for i, (a, b) in enumerate(zip(la, fa)):
         if a != b:
@@ -948,7 +985,7 @@ def run(ctx):
         len(histories), ncorpus, nexh, L, len(histories) - ncorpus - nexh))
 
     terms, kept = [], []
-    ndirect = 0
+    ndirect = next_ = 0
     unrepresentable = []
     for h, (la, fa, cached) in zip(histories, run_all(ctx, histories, token)):
         nreq = len(la)
@@ -966,9 +1003,19 @@ def run(ctx):
         ctx.sample({'ops': h['ops'][:8], 'answers': la[:4]}, limit=3)
         i = first_difference(la, fa)
         if i is not None:
+            small = shrink(ctx, h, token) if ndirect + next_ < 6 else h
+            if outside_domain(small):
+                # the property's histories consist of create / rewrite / touch / request on a small project:
+                # a request aborted by the caller and modules outside the project's sources are an extension
+                next_ += 1
+                sla, sfa, _ = run_history(ctx, small, token)
+                j = first_difference(sla, sfa)
+                ctx.extension_failure('long-lived project answers %r, a new project on the same disk answers %r '
+                                      '(request #%d; history uses %s)' % (sla[j], sfa[j], j, outside_domain(small)),
+                                      {'kind': 'direct', 'history': small, 'long': sla, 'fresh': sfa})
+                continue
             ndirect += 1
             if ndirect <= 3:
-                small = shrink(ctx, h, token)
                 sla, sfa, _ = run_history(ctx, small, token)
                 j = first_difference(sla, sfa)
                 ctx.violation('long-lived project answers %r, a new project on the same disk answers %r (request #%d of the history)'
